@@ -275,6 +275,8 @@ struct QMon
 				auto it = model_dropped.find(key);
 				if (it != model_dropped.end()) { model_dropped.erase(it); f10_(fmt("drop_iff: a %d-byte droppable packet (seq %llu) was forwarded at %lld although the bytes held when it arrived plus its size exceeded the capacity %d", size, (unsigned long long)p.seq_nr, (long long)t, c.cap)); }
 				else f10_(fmt("conservation: a packet (seq %llu, %d bytes) left the queue at %lld that it does not hold (duplicated or altered)", (unsigned long long)p.seq_nr, size, (long long)t));
+				// either way it is on the far side of this hop without having spent latency + serialisation time in it
+				f9(fmt("timing: a %d-byte packet (seq %llu) appeared behind the hop at %lld without having entered it (it crossed the hop in no time)", size, (unsigned long long)p.seq_nr, (long long)t));
 				return;
 			}
 			// packets in front of it never left: either overtaken (FIFO) or dropped although they fitted
@@ -289,11 +291,22 @@ struct QMon
 	void finish() { if (!held.empty()) f9(fmt("never_idle: %zu packet(s) (%d bytes) still held at quiescence", held.size(), held_bytes)); }
 };
 
+struct Chain { uint64_t key = 0; int64_t t = -1; bool valid = false; }; // the packet that has just left a monitored hop and has not entered the next one yet
+
 struct MonTap : sim::sink
 {
-	QMon* m; bool in;
-	MonTap(QMon* mm, bool i) : m(mm), in(i) {}
-	void incoming_packet(packet p) override { if (in) m->arrive(p); else m->depart(p); sim::forward_packet(std::move(p)); }
+	QMon* m; bool in; Chain* chain; bool first_hop;
+	MonTap(QMon* mm, bool i, Chain* c = nullptr, bool first = true) : m(mm), in(i), chain(c), first_hop(first) {}
+	void incoming_packet(packet p) override
+	{
+		if (in) {
+			if (chain && !first_hop) { // hops are joined back to back: whatever enters this one has left the one before it at this very instant
+				if (!chain->valid || chain->key != QMon::key_of(p) || chain->t != now_ns()) m->f9(fmt("timing: a %zu-byte packet (seq %llu) entered this hop at %lld without having crossed the hop before it", p.buffer.size() + size_t(p.overhead), (unsigned long long)p.seq_nr, (long long)now_ns()));
+				chain->valid = false; }
+			m->arrive(p);
+		} else { m->depart(p); if (chain) { chain->key = QMon::key_of(p); chain->t = now_ns(); chain->valid = true; } }
+		sim::forward_packet(std::move(p));
+	}
 	std::string label() const override { return in ? "mon-in" : "mon-out"; }
 };
 
@@ -312,16 +325,18 @@ TrafficResult run_traffic(TrafficCfg const& tc, Ctx* ctx)
 	TrafficResult R;
 	std::vector<std::unique_ptr<QMon>> mons;
 	World w;
-	auto mk = [&](World& ww, const char* nm) {
+	Chain chain;
+	auto mk = [&](World& ww, const char* nm, bool first = true, bool last = true) {
 		mons.emplace_back(new QMon); QMon* m = mons.back().get(); m->c = QCfg{ tc.bw, tc.lat, tc.cap }; m->name = nm;
 		auto q = ww.queue(tc.bw, ns(tc.lat), tc.cap, nm);
-		return World::hops_t{ std::make_shared<MonTap>(m, true), q, std::make_shared<MonTap>(m, false) };
+		bool const chained = tc.shape == 2;
+		return World::hops_t{ std::make_shared<MonTap>(m, true, chained ? &chain : nullptr, first), q, std::make_shared<MonTap>(m, false, chained && !last ? &chain : nullptr, first) };
 	};
 	w.on_build = [&](World& ww, sim::simulation&) {
 		if (tc.shape == 0) { auto h = mk(ww, "shared"); ww.chan = [h](ip::address, ip::address) { return h; }; }
 		else if (tc.shape == 1) { auto ab = mk(ww, "A->B"), ba = mk(ww, "B->A"); ww.chan = [ab, ba](ip::address a, ip::address) { return a == addr("10.0.0.1") ? ab : ba; }; }
-		else { ww.out[addr("10.0.0.1")] = mk(ww, "out(A)"); ww.out[addr("10.0.1.1")] = mk(ww, "out(B)"); ww.in[addr("10.0.1.1")] = mk(ww, "in(B)"); ww.in[addr("10.0.0.1")] = mk(ww, "in(A)");
-			auto n = mk(ww, "net"); ww.chan = [n](ip::address, ip::address) { return n; }; }
+		else { ww.out[addr("10.0.0.1")] = mk(ww, "out(A)", true, false); ww.out[addr("10.0.1.1")] = mk(ww, "out(B)", true, false); ww.in[addr("10.0.1.1")] = mk(ww, "in(B)", false, true); ww.in[addr("10.0.0.1")] = mk(ww, "in(A)", false, true);
+			auto n = mk(ww, "net", false, false); ww.chan = [n](ip::address, ip::address) { return n; }; }
 	};
 	sim::simulation sim(w);
 	asio::io_context nA(sim, addr("10.0.0.1")), nB(sim, addr("10.0.1.1"));
